@@ -1,1 +1,757 @@
-// cfg(kani) child module of src/.../execution.rs (see DESIGN.md §1.1)
+// cfg(kani) child module of src/execution/mod.rs: harnesses for the expression evaluator
+// (C03 semantics, C09 totality) and the select engine (C03, C08).  See DESIGN.md §2.
+#![allow(dead_code, unused_imports, unused_macros)]
+
+use std::mem::ManuallyDrop;
+
+use crate::model::{ArithmeticOperator, BooleanOperator, CompareOperator, ExpressionTree, Float, Function,
+                   NullableCompareOperator, UnaryArithmeticOperator, Value, ValueType};
+use crate::verif_kani::common::*;
+
+use super::expression_execution::{EvaluationError, EvaluationResult, ExpressionExecutionEngine};
+use super::{ColumnProvider, ColumnScope};
+
+/// Operand provider (rule R3): dispatches on the concrete scope, never on the name.
+pub struct Ops {
+    pub a: MD<Value>,
+    pub b: MD<Value>,
+    pub c: MD<Value>,
+    pub keys: MD<Vec<String>>,
+}
+
+impl Ops {
+    pub fn new(a: MD<Value>, b: MD<Value>, c: MD<Value>) -> MD<Ops> {
+        ManuallyDrop::new(Ops { a, b, c, keys: ManuallyDrop::new(Vec::new()) })
+    }
+}
+
+impl ColumnProvider for Ops {
+    fn get(&self, scope: ColumnScope, _name: &str) -> Option<&Value> {
+        match scope {
+            ColumnScope::Table => Some(&*self.a),
+            ColumnScope::AggregationValue => Some(&*self.b),
+            ColumnScope::GroupKey => Some(&*self.c),
+            ColumnScope::GroupValue => None,
+        }
+    }
+    fn add_key(&mut self, _key: &str) {}
+    fn keys(&self) -> &Vec<String> { &*self.keys }
+}
+
+pub fn op_a() -> Box<ExpressionTree> { Box::new(ExpressionTree::ScopedColumnAccess(ColumnScope::Table, String::new())) }
+pub fn op_b() -> Box<ExpressionTree> { Box::new(ExpressionTree::ScopedColumnAccess(ColumnScope::AggregationValue, String::new())) }
+pub fn op_c() -> Box<ExpressionTree> { Box::new(ExpressionTree::ScopedColumnAccess(ColumnScope::GroupKey, String::new())) }
+
+/// A leaf operand whose Box points at a *stack* object (never dropped - everything is ManuallyDrop):
+/// CBMC then sees the child's discriminant as a constant and follows only that arm of `evaluate`
+/// instead of exploring every arm to the recursion bound.
+macro_rules! leaf {
+    ($store:ident, $boxed:ident, $scope:expr) => {
+        let mut $store = ManuallyDrop::new(ExpressionTree::ScopedColumnAccess($scope, String::new()));
+        let $boxed: Box<ExpressionTree> = unsafe { Box::from_raw(&mut *$store as *mut ExpressionTree) };
+    };
+}
+
+pub fn eval(ops: &Ops, e: &ExpressionTree) -> MD<EvaluationResult> {
+    ManuallyDrop::new(ExpressionExecutionEngine::new(ops).evaluate(e))
+}
+
+/// Scalar value without loops (strings: exactly `slen` ASCII bytes, slen concrete <= 2).
+pub fn scalar(tag: u8, slen: usize) -> MD<Value> {
+    ManuallyDrop::new(match tag {
+        V_NULL => Value::Null,
+        V_INT => Value::Int(kani::any()),
+        V_FLOAT => Value::Float(Float(kani::any())),
+        V_BOOL => Value::Bool(kani::any()),
+        V_STRING => {
+            let mut s = String::new();
+            if slen > 0 { let b: u8 = kani::any(); kani::assume(b < 0x80); s.push(b as char); }
+            if slen > 1 { let b: u8 = kani::any(); kani::assume(b < 0x80); s.push(b as char); }
+            Value::String(s)
+        }
+        V_TIMESTAMP => Value::Timestamp(any_timestamp()),
+        _ => Value::Interval(any_interval()),
+    })
+}
+
+fn is_err(r: &EvaluationResult) -> bool { r.is_err() }
+fn is_null(r: &EvaluationResult) -> bool { matches!(r, Ok(Value::Null)) }
+fn as_int(r: &EvaluationResult) -> Option<i64> { if let Ok(Value::Int(x)) = r { Some(*x) } else { None } }
+fn as_bool(r: &EvaluationResult) -> Option<bool> { if let Ok(Value::Bool(x)) = r { Some(*x) } else { None } }
+fn as_float_bits(r: &EvaluationResult) -> Option<u64> { if let Ok(Value::Float(x)) = r { Some(x.0.to_bits()) } else { None } }
+fn same_float(bits: Option<u64>, expected: f64) -> bool {
+    match bits {
+        Some(b) => b == expected.to_bits() || (f64::from_bits(b).is_nan() && expected.is_nan()),
+        None => false,
+    }
+}
+
+macro_rules! env_stubbed_proof {
+    ($(#[$m:meta])* fn $name:ident() $body:block) => {
+        #[kani::proof]
+        #[kani::stub(regex::Regex::new, crate::verif_kani::common::stub_regex_new)]
+        #[kani::stub(chrono::Local::now, crate::verif_kani::common::stub_local_now)]
+        #[kani::stub(<chrono::Local as chrono::TimeZone>::offset_from_local_datetime, crate::verif_kani::common::stub_offset_from_local_datetime)]
+        #[kani::stub(<chrono::Local as chrono::TimeZone>::offset_from_utc_datetime, crate::verif_kani::common::stub_offset_from_utc_datetime)]
+        #[kani::stub(alloc::fmt::format, crate::verif_kani::common::stub_format)]
+        #[kani::stub(<crate::model::Value as std::fmt::Display>::fmt, crate::verif_kani::common::stub_value_display)]
+        #[kani::stub(chrono::NaiveDateTime::parse_from_str, crate::verif_kani::common::stub_naive_parse_from_str)]
+        $(#[$m])*
+        fn $name() $body
+    };
+}
+
+/// A symbolic scalar of a concrete variant, with its primitives kept so that oracles can refer to them.
+#[derive(Clone, Copy)]
+pub struct Sym {
+    pub tag: u8,
+    pub i: i64,
+    pub f: f64,
+    pub b: bool,
+    pub s0: u8,
+    pub s1: u8,
+    pub slen: usize,
+    pub secs: i64,
+    pub nanos: u32,
+    pub off: i32,
+}
+
+impl Sym {
+    /// `slen` is the (concrete) string length used when tag == V_STRING.
+    pub fn any(tag: u8, slen: usize) -> Sym {
+        let mut x = Sym { tag, i: 0, f: 0.0, b: false, s0: 0, s1: 0, slen, secs: 0, nanos: 0, off: 0 };
+        match tag {
+            V_INT => { x.i = kani::any(); }
+            V_FLOAT => { x.f = kani::any(); }
+            V_BOOL => { x.b = kani::any(); }
+            V_STRING => {
+                if slen > 0 { x.s0 = kani::any(); kani::assume(x.s0 < 0x80); }
+                if slen > 1 { x.s1 = kani::any(); kani::assume(x.s1 < 0x80); }
+            }
+            V_TIMESTAMP => {
+                x.secs = kani::any(); kani::assume(x.secs > -(1i64 << 40) && x.secs < (1i64 << 40));
+                x.nanos = kani::any(); kani::assume(x.nanos < 1_000_000_000);
+                x.off = kani::any(); kani::assume(x.off > -86_400 && x.off < 86_400);
+            }
+            V_INTERVAL => {
+                x.secs = kani::any(); kani::assume(x.secs > -(1i64 << 40) && x.secs < (1i64 << 40));
+                x.nanos = kani::any(); kani::assume(x.nanos < 1_000_000_000);
+            }
+            _ => {}
+        }
+        x
+    }
+
+    pub fn value(&self) -> MD<Value> {
+        ManuallyDrop::new(match self.tag {
+            V_NULL => Value::Null,
+            V_INT => Value::Int(self.i),
+            V_FLOAT => Value::Float(Float(self.f)),
+            V_BOOL => Value::Bool(self.b),
+            V_STRING => {
+                let mut s = String::new();
+                if self.slen > 0 { s.push(self.s0 as char); }
+                if self.slen > 1 { s.push(self.s1 as char); }
+                Value::String(s)
+            }
+            V_TIMESTAMP => {
+                let utc = chrono::DateTime::from_timestamp(self.secs, self.nanos).unwrap().naive_utc();
+                let off = chrono::FixedOffset::east_opt(self.off).unwrap();
+                Value::Timestamp(chrono::DateTime::<chrono::Local>::from_naive_utc_and_offset(utc, off))
+            }
+            _ => Value::Interval(chrono::TimeDelta::new(self.secs, self.nanos).unwrap()),
+        })
+    }
+
+    /// Reference order of two symbolic scalars of the same variant ("compare by value": numbers
+    /// numerically with NaN greatest and equal to itself, text by code point, timestamps by instant).
+    pub fn ref_cmp(&self, o: &Sym) -> std::cmp::Ordering {
+        use std::cmp::Ordering::*;
+        match self.tag {
+            V_INT => self.i.cmp(&o.i),
+            V_FLOAT => {
+                if self.f < o.f { Less } else if self.f > o.f { Greater }
+                else if self.f.is_nan() && !o.f.is_nan() { Greater }
+                else if !self.f.is_nan() && o.f.is_nan() { Less }
+                else { Equal }
+            }
+            V_BOOL => self.b.cmp(&o.b),
+            V_STRING => {
+                // lexicographic on (s0, s1) restricted to the lengths
+                if self.slen == 0 || o.slen == 0 { return self.slen.cmp(&o.slen); }
+                if self.s0 != o.s0 { return self.s0.cmp(&o.s0); }
+                if self.slen == 1 || o.slen == 1 { return self.slen.cmp(&o.slen); }
+                self.s1.cmp(&o.s1)
+            }
+            V_TIMESTAMP | V_INTERVAL => {
+                if self.secs != o.secs { self.secs.cmp(&o.secs) } else { self.nanos.cmp(&o.nanos) }
+            }
+            _ => Equal,
+        }
+    }
+}
+
+fn any_arith_op() -> ArithmeticOperator {
+    let k: u8 = kani::any();
+    kani::assume(k < 4);
+    match k { 0 => ArithmeticOperator::Add, 1 => ArithmeticOperator::Subtract, 2 => ArithmeticOperator::Multiply, _ => ArithmeticOperator::Divide }
+}
+
+fn any_compare_op() -> (u8, CompareOperator) {
+    let k: u8 = kani::any();
+    kani::assume(k < 6);
+    (k, match k {
+        0 => CompareOperator::Equal, 1 => CompareOperator::NotEqual, 2 => CompareOperator::GreaterThan,
+        3 => CompareOperator::GreaterThanOrEqual, 4 => CompareOperator::LessThan, _ => CompareOperator::LessThanOrEqual })
+}
+
+fn ref_compare(k: u8, ord: std::cmp::Ordering) -> bool {
+    use std::cmp::Ordering::*;
+    match k { 0 => ord == Equal, 1 => ord != Equal, 2 => ord == Greater, 3 => ord != Less, 4 => ord == Less, _ => ord != Greater }
+}
+
+fn null_md() -> MD<Value> { ManuallyDrop::new(Value::Null) }
+
+// ------------------------------------------------------------------------------------------------
+// Arithmetic.  Oracle (C03): NULL operand => NULL; INT op INT => the exact i64 or an error
+// (overflow, zero divisor), never a wrapped value and never a panic (C09); REAL op REAL => the IEEE
+// result; any other pair of scalars => error.
+
+macro_rules! arith_int_harness {
+    ($name:ident, $op:expr, $bound_y:expr) => {
+        env_stubbed_proof! {
+            #[kani::unwind(2)]
+            fn $name() {
+                let x: i64 = kani::any();
+                let y: i64 = kani::any();
+                if $bound_y { kani::assume(y >= -16 && y <= 16); }
+                let ops = Ops::new(ManuallyDrop::new(Value::Int(x)), ManuallyDrop::new(Value::Int(y)), null_md());
+                let e = ManuallyDrop::new(ExpressionTree::Arithmetic { operator: $op, left: op_a(), right: op_b() });
+                let r = eval(&ops, &e);
+                let expected = match $op {
+                    ArithmeticOperator::Add => x.checked_add(y),
+                    ArithmeticOperator::Subtract => x.checked_sub(y),
+                    ArithmeticOperator::Multiply => x.checked_mul(y),
+                    ArithmeticOperator::Divide => x.checked_div(y),
+                };
+                match expected {
+                    Some(v) => assert!(as_int(&r) == Some(v), "C03 INT arithmetic yields the exact result"),
+                    None => assert!(is_err(&r), "C03 INT overflow / zero divisor is reported as an error"),
+                }
+                kani::cover!(expected.is_none(), "arith: overflow / zero-divisor case reachable");
+                kani::cover!(expected.is_some(), "arith: exact case reachable");
+            }
+        }
+    };
+}
+arith_int_harness!(c03_arith_add_int_int, ArithmeticOperator::Add, false);
+arith_int_harness!(c03_arith_sub_int_int, ArithmeticOperator::Subtract, false);
+arith_int_harness!(c03_arith_mul_int_int, ArithmeticOperator::Multiply, true);
+arith_int_harness!(c03_arith_div_int_int, ArithmeticOperator::Divide, true);
+
+macro_rules! arith_float_harness {
+    ($name:ident, $op:expr, $f:expr) => {
+        env_stubbed_proof! {
+            #[kani::unwind(2)]
+            fn $name() {
+                let x: f64 = kani::any();
+                let y: f64 = kani::any();
+                let ops = Ops::new(ManuallyDrop::new(Value::Float(Float(x))), ManuallyDrop::new(Value::Float(Float(y))), null_md());
+                let e = ManuallyDrop::new(ExpressionTree::Arithmetic { operator: $op, left: op_a(), right: op_b() });
+                let r = eval(&ops, &e);
+                let f: fn(f64, f64) -> f64 = $f;
+                assert!(same_float(as_float_bits(&r), f(x, y)), "C03 REAL arithmetic yields the IEEE result");
+                kani::cover!(true, "arith float: end reachable");
+            }
+        }
+    };
+}
+arith_float_harness!(c03_arith_add_float_float, ArithmeticOperator::Add, |x, y| x + y);
+arith_float_harness!(c03_arith_sub_float_float, ArithmeticOperator::Subtract, |x, y| x - y);
+arith_float_harness!(c03_arith_mul_float_float, ArithmeticOperator::Multiply, |x, y| x * y);
+arith_float_harness!(c03_arith_div_float_float, ArithmeticOperator::Divide, |x, y| x / y);
+
+/// Operator symbolic; NULL in either position => NULL, mismatched / non-numeric scalar pairs => error.
+macro_rules! arith_mixed_harness {
+    ($name:ident, $ta:expr, $tb:expr) => {
+        env_stubbed_proof! {
+            #[kani::unwind(2)]
+            fn $name() {
+                let a = Sym::any($ta, 1);
+                let b = Sym::any($tb, 1);
+                let ops = Ops::new(a.value(), b.value(), null_md());
+                let e = ManuallyDrop::new(ExpressionTree::Arithmetic { operator: any_arith_op(), left: op_a(), right: op_b() });
+                let r = eval(&ops, &e);
+                if $ta == V_NULL || $tb == V_NULL {
+                    assert!(is_null(&r), "C03 arithmetic with NULL gives NULL");
+                } else {
+                    assert!(is_err(&r), "C03 arithmetic on mismatched / non-numeric types is an error");
+                }
+                kani::cover!(true, "arith mixed: end reachable");
+            }
+        }
+    };
+}
+arith_mixed_harness!(c03_arith_null_null, V_NULL, V_NULL);
+arith_mixed_harness!(c03_arith_null_int, V_NULL, V_INT);
+arith_mixed_harness!(c03_arith_int_null, V_INT, V_NULL);
+arith_mixed_harness!(c03_arith_null_float, V_NULL, V_FLOAT);
+arith_mixed_harness!(c03_arith_float_null, V_FLOAT, V_NULL);
+arith_mixed_harness!(c03_arith_null_string, V_NULL, V_STRING);
+arith_mixed_harness!(c03_arith_bool_null, V_BOOL, V_NULL);
+arith_mixed_harness!(c03_arith_null_timestamp, V_NULL, V_TIMESTAMP);
+arith_mixed_harness!(c03_arith_interval_null, V_INTERVAL, V_NULL);
+arith_mixed_harness!(c03_arith_int_float, V_INT, V_FLOAT);
+arith_mixed_harness!(c03_arith_float_int, V_FLOAT, V_INT);
+arith_mixed_harness!(c03_arith_int_bool, V_INT, V_BOOL);
+arith_mixed_harness!(c03_arith_bool_bool, V_BOOL, V_BOOL);
+arith_mixed_harness!(c03_arith_string_string, V_STRING, V_STRING);
+arith_mixed_harness!(c03_arith_string_int, V_STRING, V_INT);
+arith_mixed_harness!(c03_arith_int_string, V_INT, V_STRING);
+arith_mixed_harness!(c03_arith_float_bool, V_FLOAT, V_BOOL);
+arith_mixed_harness!(c03_arith_int_interval, V_INT, V_INTERVAL);
+arith_mixed_harness!(c03_arith_timestamp_int, V_TIMESTAMP, V_INT);
+
+// ------------------------------------------------------------------------------------------------
+// Comparisons: false when an operand is NULL, otherwise by value.  One harness per operand-variant pair
+// and operator group ($ks = the operator indexes covered, chosen symbolically among them).
+fn compare_op(k: u8) -> CompareOperator {
+    match k {
+        0 => CompareOperator::Equal, 1 => CompareOperator::NotEqual, 2 => CompareOperator::GreaterThan,
+        3 => CompareOperator::GreaterThanOrEqual, 4 => CompareOperator::LessThan, _ => CompareOperator::LessThanOrEqual }
+}
+
+macro_rules! compare_harness {
+    ($name:ident, $ta:expr, $la:expr, $tb:expr, $lb:expr, $k0:expr, $k1:expr) => {
+        env_stubbed_proof! {
+            #[kani::unwind(2)]
+            fn $name() {
+                let a = Sym::any($ta, $la);
+                let b = Sym::any($tb, $lb);
+                let ops = Ops::new(a.value(), b.value(), null_md());
+                let second: bool = kani::any();
+                let k: u8 = if second { $k1 } else { $k0 };
+                let e = ManuallyDrop::new(ExpressionTree::Compare { operator: compare_op(k), left: op_a(), right: op_b() });
+                let r = eval(&ops, &e);
+                if $ta == V_NULL || $tb == V_NULL {
+                    assert!(as_bool(&r) == Some(false), "C03 comparison with a NULL operand is false");
+                } else if $ta == $tb {
+                    assert!(as_bool(&r) == Some(ref_compare(k, a.ref_cmp(&b))), "C03 comparison compares by value");
+                } else if ($ta == V_INT && $tb == V_FLOAT) {
+                    if let Some(ord) = (a.i as f64).partial_cmp(&b.f) {
+                        if a.i > -(1i64 << 52) && a.i < (1i64 << 52) {
+                            assert!(as_bool(&r) == Some(ref_compare(k, ord)), "C03 INT vs REAL compares numerically");
+                        }
+                    }
+                } else if ($ta == V_FLOAT && $tb == V_INT) {
+                    if let Some(ord) = a.f.partial_cmp(&(b.i as f64)) {
+                        if b.i > -(1i64 << 52) && b.i < (1i64 << 52) {
+                            assert!(as_bool(&r) == Some(ref_compare(k, ord)), "C03 REAL vs INT compares numerically");
+                        }
+                    }
+                } else {
+                    assert!(is_err(&r) || as_bool(&r).is_some(), "C03 mixed comparison yields a boolean or an error");
+                }
+                kani::cover!(second, "compare: second operator reachable");
+            }
+        }
+    };
+}
+compare_harness!(c03_cmp_int_int_eq_ne, V_INT, 0, V_INT, 0, 0, 1);
+compare_harness!(c03_cmp_int_int_gt_ge, V_INT, 0, V_INT, 0, 2, 3);
+compare_harness!(c03_cmp_int_int_lt_le, V_INT, 0, V_INT, 0, 4, 5);
+compare_harness!(c03_cmp_float_float_eq_ne, V_FLOAT, 0, V_FLOAT, 0, 0, 1);
+compare_harness!(c03_cmp_float_float_gt_ge, V_FLOAT, 0, V_FLOAT, 0, 2, 3);
+compare_harness!(c03_cmp_float_float_lt_le, V_FLOAT, 0, V_FLOAT, 0, 4, 5);
+compare_harness!(c03_cmp_bool_bool_eq_lt, V_BOOL, 0, V_BOOL, 0, 0, 4);
+compare_harness!(c03_cmp_string1_string1_eq_lt, V_STRING, 1, V_STRING, 1, 0, 4);
+compare_harness!(c03_cmp_string1_string1_ne_ge, V_STRING, 1, V_STRING, 1, 1, 3);
+compare_harness!(c03_cmp_string0_string1_gt_le, V_STRING, 0, V_STRING, 1, 2, 5);
+compare_harness!(c03_cmp_timestamp_timestamp_eq_lt, V_TIMESTAMP, 0, V_TIMESTAMP, 0, 0, 4);
+compare_harness!(c03_cmp_interval_interval_ne_gt, V_INTERVAL, 0, V_INTERVAL, 0, 1, 2);
+compare_harness!(c03_cmp_null_null_eq_ne, V_NULL, 0, V_NULL, 0, 0, 1);
+compare_harness!(c03_cmp_null_int_eq_ne, V_NULL, 0, V_INT, 0, 0, 1);
+compare_harness!(c03_cmp_null_int_lt_ge, V_NULL, 0, V_INT, 0, 4, 3);
+compare_harness!(c03_cmp_int_null_eq_ne, V_INT, 0, V_NULL, 0, 0, 1);
+compare_harness!(c03_cmp_int_null_gt_le, V_INT, 0, V_NULL, 0, 2, 5);
+compare_harness!(c03_cmp_float_null_ne_ge, V_FLOAT, 0, V_NULL, 0, 1, 3);
+compare_harness!(c03_cmp_null_string_ne_lt, V_NULL, 0, V_STRING, 1, 1, 4);
+compare_harness!(c03_cmp_bool_null_ne_gt, V_BOOL, 0, V_NULL, 0, 1, 2);
+compare_harness!(c03_cmp_timestamp_null_ne_ge, V_TIMESTAMP, 0, V_NULL, 0, 1, 3);
+compare_harness!(c03_cmp_int_float_gt_lt, V_INT, 0, V_FLOAT, 0, 2, 4);
+compare_harness!(c03_cmp_float_int_gt_eq, V_FLOAT, 0, V_INT, 0, 2, 0);
+compare_harness!(c03_cmp_int_bool_eq_lt, V_INT, 0, V_BOOL, 0, 0, 4);
+
+// ------------------------------------------------------------------------------------------------
+// IS / IS NOT (operator symbolic): NULL-safe equality.
+macro_rules! is_harness {
+    ($name:ident, $ta:expr, $tb:expr) => {
+        env_stubbed_proof! {
+            #[kani::unwind(2)]
+            fn $name() {
+                let a = Sym::any($ta, 1);
+                let b = Sym::any($tb, 1);
+                let ops = Ops::new(a.value(), b.value(), null_md());
+                let not: bool = kani::any();
+                let op = if not { NullableCompareOperator::NotEqual } else { NullableCompareOperator::Equal };
+                let e = ManuallyDrop::new(ExpressionTree::NullableCompare { operator: op, left: op_a(), right: op_b() });
+                let r = eval(&ops, &e);
+                let same = if $ta != $tb { false } else if $ta == V_NULL { true } else { a.ref_cmp(&b) == std::cmp::Ordering::Equal };
+                assert!(as_bool(&r) == Some(same != not), "C03 IS / IS NOT test (NULL-safe) equality");
+                kani::cover!(true, "is: end reachable");
+            }
+        }
+    };
+}
+is_harness!(c03_is_null_null, V_NULL, V_NULL);
+is_harness!(c03_is_int_null, V_INT, V_NULL);
+is_harness!(c03_is_null_int, V_NULL, V_INT);
+is_harness!(c03_is_float_null, V_FLOAT, V_NULL);
+is_harness!(c03_is_string_null, V_STRING, V_NULL);
+is_harness!(c03_is_bool_null, V_BOOL, V_NULL);
+is_harness!(c03_is_timestamp_null, V_TIMESTAMP, V_NULL);
+is_harness!(c03_is_interval_null, V_INTERVAL, V_NULL);
+is_harness!(c03_is_int_int, V_INT, V_INT);
+is_harness!(c03_is_bool_bool, V_BOOL, V_BOOL);
+is_harness!(c03_is_string_string, V_STRING, V_STRING);
+
+// ------------------------------------------------------------------------------------------------
+// AND / OR are two-valued (operator symbolic): a non-boolean or NULL operand counts as false.
+macro_rules! bool_harness {
+    ($name:ident, $ta:expr, $tb:expr) => {
+        env_stubbed_proof! {
+            #[kani::unwind(2)]
+            fn $name() {
+                let a = Sym::any($ta, 1);
+                let b = Sym::any($tb, 1);
+                let ops = Ops::new(a.value(), b.value(), null_md());
+                let is_or: bool = kani::any();
+                let op = if is_or { BooleanOperator::Or } else { BooleanOperator::And };
+                let e = ManuallyDrop::new(ExpressionTree::BooleanOperation { operator: op, left: op_a(), right: op_b() });
+                let r = eval(&ops, &e);
+                let av = $ta == V_BOOL && a.b;
+                let bv = $tb == V_BOOL && b.b;
+                let expected = if is_or { av || bv } else { av && bv };
+                assert!(as_bool(&r) == Some(expected), "C03 AND / OR are two-valued");
+                kani::cover!(true, "bool: end reachable");
+            }
+        }
+    };
+}
+bool_harness!(c03_bool_bool_bool, V_BOOL, V_BOOL);
+bool_harness!(c03_bool_bool_null, V_BOOL, V_NULL);
+bool_harness!(c03_bool_null_bool, V_NULL, V_BOOL);
+bool_harness!(c03_bool_null_null, V_NULL, V_NULL);
+bool_harness!(c03_bool_int_bool, V_INT, V_BOOL);
+bool_harness!(c03_bool_bool_string, V_BOOL, V_STRING);
+
+// ------------------------------------------------------------------------------------------------
+// Unary operators.
+env_stubbed_proof! {
+    #[kani::unwind(2)]
+    fn c03_unary_neg_int() {
+        let x: i64 = kani::any();
+        let ops = Ops::new(ManuallyDrop::new(Value::Int(x)), null_md(), null_md());
+        let e = ManuallyDrop::new(ExpressionTree::UnaryArithmetic { operator: UnaryArithmeticOperator::Negative, operand: op_a() });
+        let r = eval(&ops, &e);
+        match x.checked_neg() {
+            Some(v) => assert!(as_int(&r) == Some(v), "C03 unary minus yields the exact result"),
+            None => assert!(is_err(&r), "C03 unary minus overflow is reported as an error"),
+        }
+        kani::cover!(x == i64::MIN, "neg: MIN reachable");
+    }
+}
+
+macro_rules! unary_harness {
+    ($name:ident, $t:expr) => {
+        env_stubbed_proof! {
+            #[kani::unwind(2)]
+            fn $name() {
+                let a = Sym::any($t, 1);
+                let ops = Ops::new(a.value(), null_md(), null_md());
+                let invert: bool = kani::any();
+                let op = if invert { UnaryArithmeticOperator::Invert } else { UnaryArithmeticOperator::Negative };
+                if !invert && $t == V_INT { return; }
+                let e = ManuallyDrop::new(ExpressionTree::UnaryArithmetic { operator: op, operand: op_a() });
+                let r = eval(&ops, &e);
+                if $t == V_NULL {
+                    assert!(is_null(&r), "C03 unary operator on NULL gives NULL");
+                } else if !invert && $t == V_FLOAT {
+                    assert!(same_float(as_float_bits(&r), -a.f), "C03 -REAL negates");
+                } else if invert && $t == V_BOOL {
+                    assert!(as_bool(&r) == Some(!a.b), "C03 NOT inverts");
+                } else {
+                    assert!(is_err(&r), "C03 unary operator on a value of the wrong type is an error");
+                }
+                kani::cover!(true, "unary: end reachable");
+            }
+        }
+    };
+}
+unary_harness!(c03_unary_null, V_NULL);
+unary_harness!(c03_unary_float, V_FLOAT);
+unary_harness!(c03_unary_bool, V_BOOL);
+unary_harness!(c03_unary_string, V_STRING);
+unary_harness!(c03_unary_int, V_INT);
+unary_harness!(c03_unary_interval, V_INTERVAL);
+
+// ------------------------------------------------------------------------------------------------
+// x IN (v1) == (x = v1); x NOT IN (v1) == (x != v1); `is_not` symbolic.  (A list of two entries needs a
+// second iteration of the evaluator's loop, i.e. unwind 3, which does not conclude: outside the bound.)
+macro_rules! in_harness {
+    ($name:ident, $tx:expr, $t1:expr) => {
+        env_stubbed_proof! {
+            #[kani::unwind(2)]
+            fn $name() {
+                let x = Sym::any($tx, 1);
+                let v1 = Sym::any($t1, 1);
+                let ops = Ops::new(x.value(), v1.value(), null_md());
+                let is_not: bool = kani::any();
+                let e = ManuallyDrop::new(ExpressionTree::In { is_not, operand: op_a(), values: vec![*op_b()] });
+                let r = eval(&ops, &e);
+                // `=` / `!=` between same-type scalars; false as soon as an operand is NULL
+                let eq1 = $tx != V_NULL && $t1 != V_NULL && $tx == $t1 && x.ref_cmp(&v1) == std::cmp::Ordering::Equal;
+                let ne1 = $tx != V_NULL && $t1 != V_NULL && !eq1;
+                let expected = if is_not { ne1 } else { eq1 };
+                assert!(as_bool(&r) == Some(expected), "C03 IN / NOT IN mean the OR of = / the AND of !=");
+                kani::cover!(true, "in: end reachable");
+            }
+        }
+    };
+}
+in_harness!(c03_in_int_int, V_INT, V_INT);
+in_harness!(c03_in_null_int, V_NULL, V_INT);
+in_harness!(c03_in_int_null, V_INT, V_NULL);
+in_harness!(c03_in_null_null, V_NULL, V_NULL);
+in_harness!(c03_in_float_float, V_FLOAT, V_FLOAT);
+in_harness!(c03_in_string_string, V_STRING, V_STRING);
+in_harness!(c03_in_bool_bool, V_BOOL, V_BOOL);
+
+// ------------------------------------------------------------------------------------------------
+// CASE takes the first true branch (one WHEN clause: condition = operand a, result 1; else 3).
+macro_rules! case_harness {
+    ($name:ident, $t1:expr) => {
+        env_stubbed_proof! {
+            #[kani::unwind(2)]
+            fn $name() {
+                let c1 = Sym::any($t1, 1);
+                let ops = Ops::new(c1.value(), ManuallyDrop::new(Value::Int(1)), ManuallyDrop::new(Value::Int(3)));
+                let e = ManuallyDrop::new(ExpressionTree::Case {
+                    clauses: vec![(*op_a(), *op_b())],
+                    else_clause: op_c(),
+                });
+                let r = eval(&ops, &e);
+                let t1 = $t1 == V_BOOL && c1.b;
+                let expected = if t1 { 1 } else { 3 };
+                assert!(as_int(&r) == Some(expected), "C03 CASE takes the first true branch");
+                kani::cover!(true, "case: end reachable");
+            }
+        }
+    };
+}
+case_harness!(c03_case_bool, V_BOOL);
+case_harness!(c03_case_null, V_NULL);
+case_harness!(c03_case_int, V_INT);
+
+// ------------------------------------------------------------------------------------------------
+// Array subscripts are 1-based; every subscript outside the array (any i64) yields NULL.
+macro_rules! subscript_harness {
+    ($name:ident, $len:expr) => {
+        env_stubbed_proof! {
+            #[kani::unwind(2)]
+            fn $name() {
+                let e0: i64 = kani::any();
+                let e1: i64 = kani::any();
+                let idx: i64 = kani::any();
+                let arr = if $len == 0 { Vec::new() } else { vec![Value::Int(e0)] };
+                let ops = Ops::new(ManuallyDrop::new(Value::Array(ValueType::Int, arr)), ManuallyDrop::new(Value::Int(idx)), null_md());
+                let e = ManuallyDrop::new(ExpressionTree::ArrayElementAccess { array: op_a(), index: op_b() });
+                let r = eval(&ops, &e);
+                if idx == 1 && $len >= 1 {
+                    assert!(as_int(&r) == Some(e0), "C03 a[1] is the first element");
+                } else if idx == 2 && $len >= 2 {
+                    assert!(as_int(&r) == Some(e1), "C03 a[2] is the second element");
+                } else {
+                    assert!(is_null(&r), "C03 a subscript outside the array is NULL");
+                }
+                kani::cover!(idx == 1 && $len >= 1, "subscript: in range reachable");
+                kani::cover!(idx == i64::MIN, "subscript: MIN reachable");
+            }
+        }
+    };
+}
+subscript_harness!(c03_subscript_len0, 0);
+subscript_harness!(c03_subscript_len1, 1);
+
+macro_rules! subscript_type_harness {
+    ($name:ident, $tarr:expr, $tidx:expr) => {
+        env_stubbed_proof! {
+            #[kani::unwind(2)]
+            fn $name() {
+                // $tarr == V_ARRAY: a real one-element array and an index of the wrong type; otherwise a non-array
+                let a = if $tarr == V_ARRAY { ManuallyDrop::new(Value::Array(ValueType::Int, vec![Value::Int(kani::any())])) } else { Sym::any($tarr, 1).value() };
+                let ops = Ops::new(a, Sym::any($tidx, 1).value(), null_md());
+                let e = ManuallyDrop::new(ExpressionTree::ArrayElementAccess { array: op_a(), index: op_b() });
+                let r = eval(&ops, &e);
+                assert!(is_err(&r), "C03 subscripting a non-array or with a non-INT index is an error");
+                kani::cover!(true, "subscript type: end reachable");
+            }
+        }
+    };
+}
+subscript_type_harness!(c03_subscript_int_int, V_INT, V_INT);
+subscript_type_harness!(c03_subscript_null_int, V_NULL, V_INT);
+subscript_type_harness!(c03_subscript_string_int, V_STRING, V_INT);
+subscript_type_harness!(c03_subscript_array_null, V_ARRAY, V_NULL);
+subscript_type_harness!(c03_subscript_array_float, V_ARRAY, V_FLOAT);
+subscript_type_harness!(c03_subscript_array_string, V_ARRAY, V_STRING);
+
+// ------------------------------------------------------------------------------------------------
+// Functions (container-free ones).
+fn call1(f: Function) -> MD<ExpressionTree> { ManuallyDrop::new(ExpressionTree::FunctionCall { function: f, arguments: vec![*op_a()] }) }
+
+env_stubbed_proof! {
+    #[kani::unwind(2)]
+    fn c03_fn_abs_int() {
+        let x: i64 = kani::any();
+        let ops = Ops::new(ManuallyDrop::new(Value::Int(x)), null_md(), null_md());
+        let r = eval(&ops, &call1(Function::Abs));
+        match x.checked_abs() {
+            Some(v) => assert!(as_int(&r) == Some(v), "C03 abs yields the exact result"),
+            None => assert!(is_err(&r), "C03 abs overflow is reported as an error"),
+        }
+        kani::cover!(x == i64::MIN, "abs: MIN reachable");
+    }
+}
+
+env_stubbed_proof! {
+    #[kani::unwind(2)]
+    fn c03_fn_abs_other() {
+        let k: u8 = kani::any();
+        kani::assume(k < 3);
+        let f: f64 = kani::any();
+        let a = if k == 0 { null_md() } else if k == 1 { ManuallyDrop::new(Value::Float(Float(f))) } else { ManuallyDrop::new(Value::Bool(kani::any())) };
+        let ops = Ops::new(a, null_md(), null_md());
+        let r = eval(&ops, &call1(Function::Abs));
+        if k == 0 { assert!(is_null(&r), "C03 abs(NULL) is NULL"); }
+        else if k == 1 { assert!(same_float(as_float_bits(&r), f.abs()), "C03 abs(REAL)"); }
+        else { assert!(is_err(&r), "C03 abs of a non-number is an error"); }
+        kani::cover!(k == 2, "abs other: bool reachable");
+    }
+}
+
+env_stubbed_proof! {
+    #[kani::unwind(2)]
+    fn c03_fn_array_length() {
+        let n: u8 = kani::any();
+        kani::assume(n <= 1);
+        let arr = if n == 0 { Vec::new() } else { vec![Value::Null] };
+        let ops = Ops::new(ManuallyDrop::new(Value::Array(ValueType::Int, arr)), null_md(), null_md());
+        let r = eval(&ops, &call1(Function::ArrayLength));
+        assert!(as_int(&r) == Some(n as i64), "C03 array_length counts the elements");
+        kani::cover!(n == 1, "array_length: 1 reachable");
+    }
+}
+
+env_stubbed_proof! {
+    #[kani::unwind(2)]
+    fn c03_fn_wrong_arity_or_type() {
+        // a function applied to arguments it is not defined for reports an error
+        let ops = Ops::new(ManuallyDrop::new(Value::Bool(kani::any())), null_md(), null_md());
+        let k: u8 = kani::any();
+        kani::assume(k < 4);
+        let r = match k {
+            0 => eval(&ops, &call1(Function::Greatest)),
+            1 => eval(&ops, &call1(Function::Sqrt)),
+            2 => eval(&ops, &call1(Function::Pow)),
+            _ => eval(&ops, &call1(Function::ArrayLength)),
+        };
+        assert!(is_err(&r), "C03 undefined function application is an error");
+        kani::cover!(k == 3, "wrong arity: last reachable");
+    }
+}
+
+// ------------------------------------------------------------------------------------------------
+// Casts.
+env_stubbed_proof! {
+    #[kani::unwind(2)]
+    fn c03_cast_identity_and_mismatch() {
+        let k: u8 = kani::any();
+        kani::assume(k < 4);
+        let x: i64 = kani::any();
+        let ops = Ops::new(ManuallyDrop::new(Value::Int(x)), null_md(), null_md());
+        let (operand, ty) = match k {
+            0 => (op_a(), ValueType::Int),       // INT::int      -> identity
+            1 => (op_a(), ValueType::Bool),      // INT::boolean  -> error
+            2 => (op_b(), ValueType::Int),       // NULL::int     -> error
+            _ => (op_a(), ValueType::Float),     // INT::real     -> error (no implicit numeric coercion)
+        };
+        let e = ManuallyDrop::new(ExpressionTree::TypeConversion { operand, convert_to_type: ty });
+        let r = eval(&ops, &e);
+        if k == 0 { assert!(as_int(&r) == Some(x), "C03 cast to the value's own type is the identity"); }
+        else { assert!(is_err(&r), "C03 unsupported cast is an error"); }
+        kani::cover!(k == 3, "cast: last reachable");
+    }
+}
+
+env_stubbed_proof! {
+    #[kani::unwind(2)]
+    fn c03_cast_interval() {
+        let iv = Sym::any(V_INTERVAL, 0);
+        let ops = Ops::new(iv.value(), null_md(), null_md());
+        let e = ManuallyDrop::new(ExpressionTree::TypeConversion { operand: op_a(), convert_to_type: ValueType::Int });
+        let r = eval(&ops, &e);
+        // whole seconds, truncated towards zero
+        let expected = if iv.secs < 0 && iv.nanos > 0 { iv.secs + 1 } else { iv.secs };
+        assert!(as_int(&r) == Some(expected), "C03 INTERVAL::int is the number of whole seconds");
+        kani::cover!(iv.secs < 0 && iv.nanos > 0, "cast interval: negative fractional reachable");
+    }
+}
+
+
+// ------------------------------------------------------------------------------------------------
+// C08 - DISTINCT bookkeeping: DistinctValues::add (real) over the Vec-backed set shim: a tuple is
+// reported new exactly when no earlier tuple is equal to it, whatever the columns hold.
+use super::helpers::DistinctValues;
+
+fn int_or_null_value(is_null: bool, x: i64) -> Value {
+    if is_null { Value::Null } else { Value::Int(x) }
+}
+
+macro_rules! distinct_harness {
+    ($name:ident, $cols:expr) => {
+        #[kani::proof]
+        #[kani::unwind(4)]
+        #[kani::stub(alloc::fmt::format, crate::verif_kani::common::stub_format)]
+        fn $name() {
+            // three tuples of $cols columns; every column NULL or an INT in 0..3 (so that collisions are likely)
+            let n: [bool; 6] = [kani::any(), kani::any(), kani::any(), kani::any(), kani::any(), kani::any()];
+            let x: [i64; 6] = [kani::any(), kani::any(), kani::any(), kani::any(), kani::any(), kani::any()];
+            kani::assume(x[0] >= 0 && x[0] < 3 && x[1] >= 0 && x[1] < 3 && x[2] >= 0 && x[2] < 3);
+            kani::assume(x[3] >= 0 && x[3] < 3 && x[4] >= 0 && x[4] < 3 && x[5] >= 0 && x[5] < 3);
+            let mk = |i: usize| -> MD<Vec<Value>> {
+                ManuallyDrop::new(if $cols == 1 { vec![int_or_null_value(n[2 * i], x[2 * i])] }
+                                  else { vec![int_or_null_value(n[2 * i], x[2 * i]), int_or_null_value(n[2 * i + 1], x[2 * i + 1])] })
+            };
+            let (t0, t1, t2) = (mk(0), mk(1), mk(2));
+            // reference tuple equality from the primitives (NULL equal to NULL, numbers by value)
+            let col_eq = |a: usize, b: usize| -> bool { (n[a] && n[b]) || (!n[a] && !n[b] && x[a] == x[b]) };
+            let tup_eq = |i: usize, j: usize| -> bool { col_eq(2 * i, 2 * j) && ($cols == 1 || col_eq(2 * i + 1, 2 * j + 1)) };
+            let mut d = ManuallyDrop::new(DistinctValues::new());
+            let r0 = d.add(&t0);
+            let r1 = d.add(&t1);
+            let r2 = d.add(&t2);
+            assert!(r0, "C08 the first tuple is always new");
+            assert!(r1 == !tup_eq(1, 0), "C08 a tuple is emitted exactly when no earlier tuple equals it");
+            assert!(r2 == !(tup_eq(2, 0) || tup_eq(2, 1)), "C08 a tuple is emitted exactly when no earlier tuple equals it");
+            kani::cover!(!r1 && r2, "distinct: duplicate then new reachable");
+            kani::cover!(r1 && !r2, "distinct: new then duplicate reachable");
+        }
+    };
+}
+distinct_harness!(c08_distinct_one_column, 1);
+distinct_harness!(c08_distinct_two_columns, 2);
+
+#[cfg(test)]
+#[path = "/verif/.cache/playback/execution.rs"]
+mod playback_gen;
